@@ -3,6 +3,7 @@ from . import helpers_rules as H
 from . import shared as S
 
 META = {
+    'claim_added': 'Also decided: each helper has its rejecting exits (positive phrasing); the recogniser judges every item (no second pass exists for require_attribute); Node.is_scalar/get_value clauses of C14 that the helpers delegate to.',
     'level': 'other',
     'technique': 'static: decision atoms per exit (raise / return) extracted from dominating guards and compared with the table '
                  'written from the docstrings; typestate of get_value(); write-effect closure through Recognizer.recognize',
